@@ -172,6 +172,10 @@ package system
 //@   loop 1 invariant L1 [C11]: ghost.openConns == 0 && !ghost.acHeld
 //@   at call init(dd, ictx, ierr) (idctx, ires): ghost.lastInit = ires
 //@   at call fn(fctx, fdctx): assert H1 [C11]: ghost.openConns == 1 && fdctx != nil
+//@   ghost local cleanupFailed Bool
+//@   at call done() (derr): ghost.cleanupFailed = ghost.cleanupFailed || derr != nil
+//@   loop 1 invariant L2 [C11]: !ghost.cleanupFailed
+//@   ensures E4 [C11]: ghost.cleanupFailed ==> result != nil
 //@   ensures E1 [C11]: ghost.openConns == 0 && !ghost.acHeld
 //@   ensures E2 [C10]: ghost.lastInit != nil && errIs(ghost.lastInit, global("context.Canceled")) ==> result == nil
 //@   ensures E3 [C10]: ghost.lastInit != nil && !errIs(ghost.lastInit, global("context.Canceled")) ==> result != nil && errIs(result, ghost.lastInit)
